@@ -36,19 +36,55 @@ def qc_clist(zs):
     return clist(["(%s, %s)" % (qc(z.real), qc(z.imag)) for z in zs])
 
 
-def sd_est(Y, Yr, dt, n, method, pov):
-    with warnings.catch_warnings():
-        warnings.simplefilter("ignore")
-        f, S = fdd.SD_est(np.array(Y, float), np.array(Yr, float), dt, n, method, pov)
+class InputModified(Exception):
+    """SD_est changed an array the caller passed in"""
+
+
+class ReadOnlyCall(Exception):
+    """SD_est raised while the caller's records were read-only views"""
+
+
+_CALLS = [0]
+
+
+def _present(arrs, ro):
+    """what the implementation sees: every second call the caller's arrays are read-only (np.load(mmap_mode='r'), np.broadcast_to, setflags)"""
+    out = []
+    for a in arrs:
+        v = a.view()
+        if ro:
+            v.setflags(write=False)
+        out.append(v)
+    return out
+
+
+def _call(Y, Yr, dt, n, method, pov, ro):
+    _CALLS[0] += 1
+    if ro is None:
+        ro = _CALLS[0] % 2 == 0
+    keep = (Y.copy(), Yr.copy())
+    vY, vYr = _present((Y, Yr), ro)
+    try:
+        with warnings.catch_warnings():
+            warnings.simplefilter("ignore")
+            f, S = fdd.SD_est(vY, vYr, dt, n, method, pov)
+    except Exception as ex:
+        if ro:
+            raise ReadOnlyCall("%s: %s - the records were passed as read-only arrays (setflags(write=False))" % (type(ex).__name__, str(ex)[:100])) from ex
+        raise
+    if not (np.array_equal(Y, keep[0]) and np.array_equal(Yr, keep[1])):
+        raise InputModified("SD_est(%s) wrote to an input array" % method)
     return np.asarray(f), np.asarray(S)
 
 
-def sd_est_raw(Y, Yr, dt, n, method, pov):
-    """the arrays go in exactly as stored (integer dtypes stay integer)"""
-    with warnings.catch_warnings():
-        warnings.simplefilter("ignore")
-        f, S = fdd.SD_est(Y, Yr, dt, n, method, pov)
-    return np.asarray(f), np.asarray(S)
+def sd_est(Y, Yr, dt, n, method, pov, ro=None):
+    """float64 image of the record (the harness' own copy); read-only on every second call; inputs must come back unchanged"""
+    return _call(np.array(Y, float), np.array(Yr, float), dt, n, method, pov, ro)
+
+
+def sd_est_raw(Y, Yr, dt, n, method, pov, ro=None):
+    """the arrays go in exactly as stored (integer / narrow dtypes stay as they are), as views of the caller's arrays"""
+    return _call(Y, Yr, dt, n, method, pov, ro)
 
 
 def counts(rng, shape, amp, dtype, offset=True):
@@ -279,7 +315,7 @@ def correspondence(ctx):
                 f, S = sd_est(c["Y"], c["Yref"], c["dt"], c["n"], method, pov)
         except Exception as ex:
             ctx.count(dict(kind="corr", method=method, case=c))
-            ofail(ctx, method, "exception", "raises %s (%s) on a valid record" % (type(ex).__name__, str(ex)[:120]), dict(kind="corr", method=method, case=c))
+            ofail(ctx, method, "exception", "raises %s (%s) on a valid record" % (type(ex).__name__, str(ex)[:220]), dict(kind="corr", method=method, case=c, readonly_inputs=isinstance(ex, ReadOnlyCall)))
             continue
         nontriv = bool(np.any(np.array(c["Y"])) and np.any(np.array(c["Yref"])))
         ctx.count(dict(kind="corr", method=method, case=c), nontrivial=nontriv)
@@ -330,9 +366,20 @@ class Guard:
 
     def __exit__(self, et, ev, tb):
         if et is not None and issubclass(et, Exception) and not issubclass(et, AssertionError):
-            ofail(self.ctx, self.method, "exception", "raises %s (%s) on a valid record" % (et.__name__, str(ev)[:120]), self.case)
+            case = dict(self.case, readonly_inputs=True) if issubclass(et, ReadOnlyCall) and isinstance(self.case, dict) else self.case
+            ofail(self.ctx, self.method, "exception", "raises %s (%s) on a valid record" % (et.__name__, str(ev)[:220]), case)
             return True
         return False
+
+
+def try_est(ctx, method, case, *args, **kw):
+    """sd_est, an exception being reported as a failing input (None returned)"""
+    try:
+        return sd_est(*args, **kw)
+    except Exception as ex:
+        case = dict(case, readonly_inputs=True) if isinstance(ex, ReadOnlyCall) and isinstance(case, dict) else case
+        ofail(ctx, method, "exception", "raises %s (%s) on a valid record" % (type(ex).__name__, str(ex)[:220]), case)
+        return None
 
 
 def exact_pov(n, m):
@@ -413,7 +460,10 @@ def oracle_welch(ctx):
         if exact_pov(n, m) is None:
             ctx.not_judged += 1
             Y = rng.standard_normal((1, m + 5 * (n - m) + 3))
-            _, S = sd_est(Y, Y, 0.01, n, "per", m / n)
+            r = try_est(ctx, "per", dict(kind="observation", n=n, noverlap=m, Y=Y.tolist()), Y, Y, 0.01, n, "per", m / n)
+            if r is None:
+                continue
+            S = r[1]
             lower = relerr(S[:, :, 2:], welch_independent(Y, Y, 100.0, n, m - 1)[:, :, 2:]) < 1e-9
             ctx.note("nxseg=%d, pov=%r: float(nxseg*pov)=%r, SD_est passes it to scipy which truncates: the estimate %s Welch's with overlap %d instead of %d "
                      "(float product not an integer: outside 'overlaps with integer nxseg*pov', not judged; int(round(nxseg*pov)) would remove it)"
@@ -482,8 +532,11 @@ def oracle_welch(ctx):
         N = 2 ** 16
         sig = float(rng.uniform(0.5, 4.0))
         y = sig * rng.standard_normal((2, N))
-        _, S = sd_est(y, y, 1.0 / fs, n, "per", 0.5)
         ctx.count(dict(kind="noise-integral", n=n, fs=fs, sig=sig))
+        r = try_est(ctx, "per", dict(kind="noise-integral", n=n, fs=fs, sigma=sig, N=N, head=y[:, :32].tolist()), y, y, 1.0 / fs, n, "per", 0.5)
+        if r is None:
+            continue
+        S = r[1]
         for i in range(2):
             integ = float(np.sum(S[i, i].real) * fs / n)
             ms = float(np.mean((y[i] - y[i].mean()) ** 2))
@@ -492,24 +545,34 @@ def oracle_welch(ctx):
                       dict(kind="noise-integral", n=n, fs=fs, sigma=sig, N=N))
 
 
+EXACT_DTYPES = ("int32", "int64", "uint32", "uint64")          # scipy computes these in double precision: judged like float64
+NARROW_DTYPES = ("uint8", "uint16", "int16", "float32")         # scipy returns complex64 for these: judged at single precision
+
+
 def integer_record_checks(ctx, method, Y, Yr, Z, Zr, fs, n, m, case):
-    """property text on an integer-stored record: (a) same estimate as for the float image of the record; (b) 'per': Welch's estimate
-    (lines >= 2); (c) bilinear with integer gains applied in integer arithmetic, g^2 for a common integer gain."""
+    """property text on a record stored in another dtype than float64: (a) same estimate as for the float64 image of the record; (b) 'per':
+    Welch's estimate (lines >= 2); (c) bilinear with integer gains applied in the stored arithmetic, g^2 for a common integer gain (wide
+    integer types only: no overflow by construction).  Narrow types (single-precision result) are judged at 2e-5, never tighter."""
     pov = m / n
+    dname = Y.dtype.name
+    narrow = dname in NARROW_DTYPES
+    t_img, t_val = (2e-5, 2e-5) if narrow else (1e-12, 1e-9)
     with Guard(ctx, method, case):
         f, S = sd_est_raw(Y, Yr, 1.0 / fs, n, method, pov)
         ff, Sf = sd_est(Y.astype(float), Yr.astype(float), 1.0 / fs, n, method, pov)
-        if S.shape != Sf.shape or not np.allclose(f, ff, rtol=1e-12, atol=0) or relerr(S, Sf) > 1e-12:
-            ofail(ctx, method, "integer-record", "the estimate of a record stored as %s differs from that of the same values stored as float by %.3g (limit 1e-12)"
-                  % (Y.dtype, relerr(S, Sf) if S.shape == Sf.shape else float("inf")), case)
+        if S.shape != Sf.shape or not np.allclose(f, ff, rtol=1e-12, atol=0) or relerr(S, Sf) > t_img:
+            ofail(ctx, method, "integer-record", "the estimate of a record stored as %s differs from that of the same values stored as float by %.3g (limit %g)"
+                  % (Y.dtype, relerr(S, Sf) if S.shape == Sf.shape else float("inf"), t_img), case)
             if S.shape != Sf.shape:
                 return
         if method == "per":
             W = welch_independent(Y.astype(float), Yr.astype(float), fs, n, m)
             dev = relerr(S[:, :, 2:], W[:, :, 2:])
-            if dev > 1e-9:
+            if dev > t_val:
                 ofail(ctx, method, "integer-welch", "record stored as %s: differs from Welch's averaged Hann-windowed one-sided density (lines >= 2) by %.3g" % (Y.dtype, dev), case)
-        g, a, b = 3, 2, -3
+        if narrow or Z is None:
+            return
+        g, a, b = (3, 2, -3) if Y.dtype.kind == "i" else (3, 2, 3)   # unsigned: positive gains only
         _, Sg = sd_est_raw(g * Y, g * Yr, 1.0 / fs, n, method, pov)
         if (g * Y).dtype != Y.dtype or relerr(Sg, g * g * S) > 1e-9:
             ofail(ctx, method, "integer-gain2", "record stored as %s: Sy(%d Y, %d Yref) differs from %d Sy(Y, Yref) by %.3g" % (Y.dtype, g, g, g * g, relerr(Sg, g * g * S)), case)
@@ -518,6 +581,17 @@ def integer_record_checks(ctx, method, Y, Yr, Z, Zr, fs, n, m, case):
               + sd_est_raw(Z, Zr, 1.0 / fs, n, method, pov)[1])
         if relerr(S2, Sb) > 1e-9:
             ofail(ctx, method, "integer-bilinear", "record stored as %s: not bilinear in (data, reference data) for integer combinations: rel. dev %.3g" % (Y.dtype, relerr(S2, Sb)), case)
+
+
+def stored(rng, shape, amp, dtype):
+    """a record stored as dtype: signed counts around an offset, unsigned counts 0..2 amp (+ offset), float32 short dyadics"""
+    dt = np.dtype(dtype)
+    if dt.kind == "i":
+        return counts(rng, shape, min(amp, 5000) if dt.itemsize == 2 else amp, dtype)
+    if dt.kind == "u":
+        hi = {1: 60, 2: 9000}.get(dt.itemsize, 2 * amp)
+        return (rng.integers(0, min(2 * amp, hi) + 1, size=shape) + rng.integers(0, 10, size=(shape[0], 1))).astype(dtype)
+    return (rng.integers(-amp, amp + 1, size=shape) / 8.0).astype(dtype)
 
 
 def oracle_integer(ctx):
@@ -532,6 +606,9 @@ def oracle_integer(ctx):
                 integer_record_checks(ctx, method, Y, Yr, Z, Zr, c["fs"], c["n"], c["noverlap"], dict(c, method=method, corpus=os.path.basename(path)))
     confs = [(n, amp, dtype) for n in ([16, 64, 25, 256] if ctx.quick() else [16, 32, 64, 25, 100, 125, 256, 1024])
              for amp in (4, 300, 20000) for dtype in (np.int32, np.int64)]
+    # other storage types the property does not restrict: unsigned counts, 16-bit counts, single-precision floats
+    confs += [(n, amp, dtype) for (n, amp) in ([(16, 4), (64, 300)] if ctx.quick() else [(16, 4), (64, 300), (25, 20000), (256, 300)])
+              for dtype in (np.uint32, np.uint64, np.uint8, np.uint16, np.int16, np.float32)]
     for (n, amp, dtype) in confs:
         nall, nref = int(rng.integers(1, 5)), int(rng.integers(1, 4))
         m = [0, n // 4, n // 2, (3 * n) // 4][int(rng.integers(4))]
@@ -541,12 +618,12 @@ def oracle_integer(ctx):
         fs = float(rng.choice([100.0, 12.5, 51.2, 99.0, 0.5, 1.0]))
         N = m + int(rng.integers(2, 7)) * (n - m) + int(rng.integers(0, n - m))
         N = max(N, n)
-        Y, Yr = counts(rng, (nall, N), amp, dtype), counts(rng, (nref, N), amp, dtype)
-        Z, Zr = counts(rng, (nall, N), amp, dtype), counts(rng, (nref, N), amp, dtype)
+        Y, Yr = stored(rng, (nall, N), amp, dtype), stored(rng, (nref, N), amp, dtype)
+        Z, Zr = stored(rng, (nall, N), amp, dtype), stored(rng, (nref, N), amp, dtype)
         for method in ("per", "cor"):
             case = dict(kind="integer", method=method, dtype=np.dtype(dtype).name, n=n, noverlap=m, fs=fs, N=N, amplitude=amp,
                         Y=Y[:, :96].tolist(), Yref=Yr[:, :96].tolist(), Z=Z[:, :96].tolist(), Zref=Zr[:, :96].tolist(), truncated=N > 96)
-            ctx.count(dict(kind="integer", method=method, dtype=np.dtype(dtype).name, n=n, m=m, fs=fs, N=N, amp=amp, d=int(Y[0, 0])))
+            ctx.count(dict(kind="integer", method=method, dtype=np.dtype(dtype).name, n=n, m=m, fs=fs, N=N, amp=amp, d=float(Y[0, 0])))
             ctx.hist("integer_records", (method, np.dtype(dtype).name, amp))
             integer_record_checks(ctx, method, Y, Yr, Z, Zr, fs, n, m, case)
 
@@ -611,7 +688,7 @@ def oracle_welch_long(ctx):
                 ss.add_algorithms(alg)
                 ss.run_by_name("a")
         except Exception as ex:
-            ctx.note("class glue FDD (long record) not exercised: %s: %s" % (type(ex).__name__, str(ex)[:80]))
+            ctx.fail("oracle", "FDD on a long record raises %s (%s)" % (type(ex).__name__, str(ex)[:120]), case, key="C13:glue:FDD:exception")
             continue
         Sr = np.asarray(alg.result.Sy)
         W = welch_independent(data.T, data.T, fs, n, m)
@@ -737,11 +814,17 @@ def class_sequence(ctx, spec, origin="gen"):
     try:
         with warnings.catch_warnings():
             warnings.simplefilter("ignore")
-            setups = [SingleSetup(d.copy(), fs=su["fs"]) for d, su in zip(datas, spec["setups"])]
+            held = [d.copy() for d in datas]
+            if spec.get("readonly", spec["seed"] % 2 == 0):  # the record the setup is given is read-only (memory-mapped file, broadcast view)
+                for h in held:
+                    h.setflags(write=False)
+            setups = [SingleSetup(h, fs=su["fs"]) for h, su in zip(held, spec["setups"])]
             alg = cls(**kw)
             setups[0].add_algorithms(alg)
     except Exception as ex:
-        ctx.note("class glue %s not exercised: %s: %s" % (spec["cls"], type(ex).__name__, str(ex)[:80]))
+        ctx.count(dict(kind="class-seq", cls=spec["cls"], seed=spec["seed"], step="setup"))
+        ctx.fail("oracle", "%s: building the setup / algorithm raises %s (%s) on a valid record%s" % (spec["cls"], type(ex).__name__, str(ex)[:120],
+                 " held read-only" if spec.get("readonly", spec["seed"] % 2 == 0) else ""), dict(kind="class-seq", origin=origin, spec=spec), key="C13:glue:%s:exception" % spec["cls"])
         return
     for si, step in enumerate([["run"]] + [list(x) for x in spec["steps"]]):
         kind = step[0]
@@ -762,12 +845,22 @@ def class_sequence(ctx, spec, origin="gen"):
                     alg.set_run_params(alg.run_params.model_copy(update=dict(nxseg=cur["nxseg"], method_SD=cur["method"], pov=cur["pov"])))
                 setups[where].run_by_name("a")
         except Exception as ex:
-            ctx.note("class glue %s step %s not exercised: %s: %s" % (spec["cls"], kind, type(ex).__name__, str(ex)[:80]))
+            ctx.count(dict(kind="class-seq", cls=spec["cls"], seed=spec["seed"], step=si, what=step))
+            ctx.fail("oracle", "%s (run %d of one object, step %s): raises %s (%s) on a valid record%s" % (spec["cls"], si, kind, type(ex).__name__, str(ex)[:120],
+                     " held read-only" if spec.get("readonly", spec["seed"] % 2 == 0) else ""),
+                     dict(kind="class-seq", origin=origin, spec=spec, failing_step=si, step=step), key="C13:glue:%s:exception" % spec["cls"])
+            return
+        if not all(np.array_equal(h, d) for h, d in zip(held, datas)):
+            ctx.fail("oracle", "%s (run %d of one object): the record held by the setup was modified" % (spec["cls"], si),
+                     dict(kind="class-seq", origin=origin, spec=spec, failing_step=si, step=step), key="C13:glue:%s:input-modified" % spec["cls"])
             return
         fs = spec["setups"][where]["fs"]
-        f, S = sd_est(datas[where].T, datas[where].T, 1.0 / fs, cur["nxseg"], cur["method"], cur["pov"])
-        fr, Sr = np.asarray(alg.result.freq), np.asarray(alg.result.Sy)
         case = dict(kind="class-seq", origin=origin, spec=spec, failing_step=si, step=step, before=before, now=dict(cur, setup=where, fs=fs))
+        r = try_est(ctx, cur["method"], case, datas[where].T, datas[where].T, 1.0 / fs, cur["nxseg"], cur["method"], cur["pov"], ro=False)
+        if r is None:
+            return
+        f, S = r
+        fr, Sr = np.asarray(alg.result.freq), np.asarray(alg.result.Sy)
         ctx.count(dict(kind="class-seq", cls=spec["cls"], seed=spec["seed"], step=si, what=step, now=dict(cur, setup=where)))
         ctx.hist("class_step", (spec["cls"], kind))
         bad = None
@@ -914,7 +1007,7 @@ def oracle_ownership(ctx):
                 s1.run_by_name("a")  # and the first object again
                 fa2 = np.asarray(a.result.freq)
         except Exception as ex:
-            ctx.note("class ownership %s/%s (%s) not exercised: %s: %s" % (c1, c2, method, type(ex).__name__, str(ex)[:80]))
+            ctx.fail("oracle", "class ownership sequence %s/%s (%s) raises %s (%s)" % (c1, c2, method, type(ex).__name__, str(ex)[:120]), case, key="C13:glue:%s:exception" % c1)
             continue
         fe = np.arange(n // 2 + 1) * fs / n
         for nm, fx in ((c2 + " (another object, another record)", fb), (c1 + " (the same object run again)", fa2)):
@@ -929,6 +1022,98 @@ def oracle_ownership(ctx):
                          % (c1, c2), case, key="C13:glue:%s:ownership" % c2)
 
 
+def forms_case(ctx, method, n, fs, m, Y, Yr, case):
+    """every accepted form of the same option value gives the same result (bit for bit) as the plain Python form, whose result the other
+    clauses judge; forms established on the unchanged tree: nxseg int / np.int64 / np.int32 / element of np.arange / 0-d integer array;
+    dt and pov float / np.float64 / 0-d array (pov = 0 also as int 0, np.int64(0)); method str / np.str_; records writable or read-only."""
+    dt, pov = 1.0 / fs, m / n
+    fe = np.arange(n // 2 + 1) * fs / n
+    with Guard(ctx, method, case):
+        f0, S0 = sd_est(Y, Yr, dt, n, method, pov, ro=False)
+        if f0.shape != fe.shape or not np.allclose(f0, fe, rtol=1e-12, atol=0):
+            ofail(ctx, method, "grid", "frequency vector is not k*fs/nxseg", case)
+            return
+    variants = [("nxseg as np.int64", dict(n=np.int64(n))), ("nxseg as np.int32", dict(n=np.int32(n))), ("nxseg as element of np.arange", dict(n=np.arange(n + 1)[n])),
+                ("nxseg as 0-d integer array", dict(n=np.array(n))), ("dt as np.float64", dict(dt=np.float64(dt))), ("dt as 0-d array", dict(dt=np.array(dt))),
+                ("pov as np.float64", dict(pov=np.float64(pov))), ("pov as 0-d array", dict(pov=np.array(pov))), ("method as np.str_", dict(method=np.str_(method))),
+                ("all options as NumPy scalars", dict(n=np.int64(n), dt=np.float64(dt), pov=np.float64(pov), method=np.str_(method))),
+                ("records read-only", dict(ro=True))]
+    if m == 0:
+        variants += [("pov = 0 as int", dict(pov=0)), ("pov = 0 as np.int64", dict(pov=np.int64(0)))]
+    for name, ch in variants:
+        kw = dict(dt=dt, n=n, method=method, pov=pov, ro=False)
+        kw.update(ch)
+        vcase = dict(case, variant=name)
+        with Guard(ctx, method, vcase):
+            f, S = sd_est(Y, Yr, kw["dt"], kw["n"], kw["method"], kw["pov"], ro=kw["ro"])
+            if S.shape != S0.shape or not np.array_equal(S, S0) or not np.array_equal(f, f0):
+                ofail(ctx, method, "option-form", "%s: result differs from that of the plain Python value (rel. dev %.3g%s)"
+                      % (name, relerr(S, S0) if S.shape == S0.shape else float("inf"), "" if np.array_equal(f, f0) else "; frequency vector differs"), vcase)
+
+
+def oracle_forms(ctx):
+    rng = ctx.np_rng
+    for path in sorted(glob.glob(os.path.join(VERIF, "corpus", "C13", "*.json"))):
+        c = json.load(open(path))
+        if c.get("kind") in ("forms", "readonly"):
+            for method in ("per", "cor"):
+                ctx.count(dict(kind="corpus-" + c["kind"], file=os.path.basename(path), method=method))
+                forms_case(ctx, method, c["n"], c["fs"], c["noverlap"], c["Y"], c["Yref"], dict(c, method=method, corpus=os.path.basename(path)))
+        if c.get("kind") == "storage":
+            Y, Yr = np.array(c["Y"], dtype=c["dtype"]), np.array(c["Yref"], dtype=c["dtype"])
+            for method in ("per", "cor"):
+                ctx.count(dict(kind="corpus-storage", file=os.path.basename(path), method=method))
+                integer_record_checks(ctx, method, Y, Yr, None, None, c["fs"], c["n"], c["noverlap"], dict(c, method=method, corpus=os.path.basename(path)))
+    for (n, fs, m) in ([(32, 51.2, 16), (16, 100.0, 0), (25, 12.5, 0)] if ctx.quick() else [(32, 51.2, 16), (16, 100.0, 0), (25, 12.5, 0), (64, 0.5, 48), (128, 99.0, 32), (50, 20.0, 25)]):
+        nall, nref = int(rng.integers(1, 4)), int(rng.integers(1, 3))
+        N = max(m + int(rng.integers(2, 6)) * (n - m) + 1, n)
+        Y, Yr = dyad(rng, (nall, N)), dyad(rng, (nref, N))
+        for method in ("per", "cor"):
+            case = dict(kind="forms", method=method, n=n, fs=fs, noverlap=m, Y=Y.tolist(), Yref=Yr.tolist())
+            ctx.count(dict(kind="forms", method=method, n=n, fs=fs, m=m, d=float(Y[0, 0])))
+            ctx.hist("option_forms", (method, n))
+            forms_case(ctx, method, n, fs, m, Y, Yr, case)
+    # class level: constructor / setup options in NumPy forms (pydantic coerces them), record read-only
+    import pyoma2.algorithms as algs
+    from pyoma2.setup import SingleSetup
+    n, fs, pov = 32, 51.2, 0.25
+    data = dyad(rng, (n * 6 + 5, 3))
+    variants = [("plain", dict(nxseg=n, pov=pov, fs=fs)), ("nxseg np.int64", dict(nxseg=np.int64(n), pov=pov, fs=fs)), ("nxseg np.int32", dict(nxseg=np.int32(n), pov=pov, fs=fs)),
+                ("nxseg element of np.arange", dict(nxseg=np.arange(n + 1)[n], pov=pov, fs=fs)), ("pov np.float64", dict(nxseg=n, pov=np.float64(pov), fs=fs)),
+                ("pov 0-d array", dict(nxseg=n, pov=np.array(pov), fs=fs)), ("fs np.float64", dict(nxseg=n, pov=pov, fs=np.float64(fs))), ("fs 0-d array", dict(nxseg=n, pov=pov, fs=np.array(fs)))]
+    for cname in ("FDD", "pLSCF"):
+        for method in ("per", "cor"):
+            r = try_est(ctx, method, dict(kind="class-forms", cls=cname, method=method, nxseg=n, pov=pov, fs=fs, data=data.tolist()), data.T, data.T, 1.0 / fs, n, method, pov, ro=False)
+            if r is None:
+                continue
+            Sexp = r[1]
+            for vi, (name, v) in enumerate(variants if ctx.quick() is False or method == "per" else variants[:1] + variants[1::3]):
+                case = dict(kind="class-forms", cls=cname, method=method, variant=name, nxseg=n, pov=pov, fs=fs, data=data.tolist(), readonly=bool(vi % 2))
+                ctx.count(dict(kind="class-forms", cls=cname, method=method, variant=name, d=float(data[0, 0])))
+                try:
+                    with warnings.catch_warnings():
+                        warnings.simplefilter("ignore")
+                        held = data.copy()
+                        if vi % 2:
+                            held.setflags(write=False)
+                        ss = SingleSetup(held, fs=v["fs"])
+                        kw = dict(name="a", nxseg=v["nxseg"], method_SD=method, pov=v["pov"])
+                        if cname == "pLSCF":
+                            kw["ordmax"] = np.int64(6) if vi % 3 == 1 else (np.arange(9)[6] if vi % 3 == 2 else 6)
+                        alg = getattr(algs, cname)(**kw)
+                        ss.add_algorithms(alg)
+                        ss.run_by_name("a")
+                        Sr = np.asarray(alg.result.Sy)
+                except Exception as ex:
+                    ctx.fail("oracle", "%s(%s) with %s%s raises %s (%s)" % (cname, method, name, ", record read-only" if vi % 2 else "", type(ex).__name__, str(ex)[:120]),
+                             case, key="C13:glue:%s:option-form" % cname)
+                    continue
+                if Sr.shape != Sexp.shape or not np.array_equal(Sr, Sexp) or not np.array_equal(held, data):
+                    ctx.fail("oracle", "%s(%s) with %s%s: result.Sy differs from SD_est with the plain values (rel. dev %.3g)"
+                             % (cname, method, name, ", record read-only" if vi % 2 else "", relerr(Sr, Sexp) if Sr.shape == Sexp.shape else float("inf")),
+                             case, key="C13:glue:%s:option-form" % cname)
+
+
 def oracle_corpus(ctx):
     for path in sorted(glob.glob(os.path.join(VERIF, "corpus", "C13", "*.json"))):
         c = json.load(open(path))
@@ -938,7 +1123,10 @@ def oracle_corpus(ctx):
         t = np.arange(c["N"])
         Y = np.real(A[:, None] * np.exp(2j * np.pi * k0 * t[None, :] / n))
         ctx.count(dict(kind="corpus-sinusoid", file=os.path.basename(path)))
-        f, S = sd_est(Y, Y, 1.0 / c["fs"], n, "per", c["pov"])
+        r = try_est(ctx, "per", dict(c, corpus=os.path.basename(path)), Y, Y, 1.0 / c["fs"], n, "per", c["pov"])
+        if r is None:
+            continue
+        f, S = r
         fsin = k0 * c["fs"] / n
         kp = int(np.argmax(S[0, 0].real))
         if len(f) != n // 2 + 1 or kp != k0 or abs(f[kp] - fsin) > 1e-9 * fsin:
@@ -971,4 +1159,5 @@ def run(ctx):
     oracle_gain_delay(ctx)
     oracle_sinusoid(ctx)
     oracle_classes(ctx)
+    oracle_forms(ctx)
     oracle_ownership(ctx)  # last: it overwrites returned arrays on purpose
